@@ -3,6 +3,7 @@
 # Wpull. Copyright 2013-2015: Christopher Foo and others. License: GPL v3.
 import abc
 import email.utils
+import errno
 import gettext
 import http.client
 import itertools
@@ -117,11 +118,23 @@ class BaseFileWriterSession(BaseWriterSession):
         _logger.debug('Saving file to {0}, mode={1}.',
                       filename, mode)
 
-        dir_path = os.path.dirname(filename)
-        if dir_path and not os.path.exists(dir_path):
-            os.makedirs(dir_path)
+        try:
+            dir_path = os.path.dirname(filename)
+            if dir_path and not os.path.exists(dir_path):
+                os.makedirs(dir_path)
 
-        response.body = Body(open(filename, mode))
+            response.body = Body(open(filename, mode))
+        except (OSError, RecursionError) as error:
+            if isinstance(error, OSError) and \
+                    error.errno != errno.ENAMETOOLONG:
+                raise
+
+            # The name follows from the URL (too many directory levels or
+            # too long as a whole): an error of this URL, not a failure of
+            # the local file system that would end the whole crawl.
+            raise ProtocolError(
+                _('File name too long for this file system: {filename}.')
+                .format(filename=filename[:100])) from error
 
     @classmethod
     def set_timestamp(cls, filename: str, response: HTTPResponse):
